@@ -662,6 +662,9 @@ pub fn run(scn: &Scenario) -> RunResult {
         tracker: crate::values::Tracker::new(),
         seq: AtomicU64::new(0),
     });
+    if let Some(b) = scn.knob("bomb_val") {
+        run.tracker.bomb.store(b as u32, Ordering::SeqCst);
+    }
     let build_error: Arc<Mutex<Option<String>>> = Arc::new(Mutex::new(None));
     let prelude = scn.knob("prelude").unwrap_or(0).max(0) as usize;
     if prelude > 0 {
